@@ -17,6 +17,7 @@ META = {
         "accepts all four integer event kinds and the float recogniser all five (the text parser, the model bridge and the MessagePack reader produce "
         "different kinds for the same number); R6 every PrimitiveWriter implementation maps each write method to the same kind (bridge event kinds, model "
         "Value variants), and Value::write_with followed by the model builder is the identity on kinds. R12 collection recognisers reset an element recogniser after every element; R13 every form of an absent delegated body that a writer produces is accepted by the reader; R10 also: on a tie the record form wins."
+        " R17 FirstOf::feed_event: the second alternative's result is the answer only when the first did not complete with a value; R18 (= C09.R1d) a #[form(body)] value inside an attribute is printed inside the parenthesis already open."
 ),
     "does_not_decide": "the law itself for derived types and every value (the derive macro's two generated paths are not analysed: the workspace holds too few expansions, DESIGN 9.6); "
                        "value-level round trips of floats, texts and nested records",
